@@ -10,6 +10,12 @@ C10 driver: the EngineCommon protocol (`init`, `algo`, `ev ...`) plus
   `runall sync|async`  the whole history through the run loop and a fresh replica
   `runall sync|async <drop|dup|late|swap>:<first|mid|last|index>`  the same, the replica being fed through a
               faulty transport (a record removed / repeated at once / repeated before the final one / swapped)
+  `resnap`    (configuration shape) `audit_snapshot` of the case's RUNNING engine - whatever orders, positions,
+              prices it holds, sequence counter > 0 - and a fresh replica on it, fed by the following records
+  `runtwo sync|async k [fault]`  (configuration shape) a second run on the same engine: fresh engine, events
+              0..k of the history through the runner (own snapshot, channel, replica), then a second snapshot of
+              the same engine, a new channel, the rest of the feed (what the first run did not consume) through
+              the runner into a fresh replica on that snapshot
 Every processed event yields one audit record which is fed to the replica.
 `rec_ev` / `run_ev`: digest of the event a record carries (model: the tick's event; spec: the INPUT
 event of the op - "carrying that event"); `rec_out`: kinds of the outputs in the record (model only).
@@ -187,6 +193,77 @@ def feedForged (s : St) : Option Tick → St × List String
     let rep' := match res with | .applied r _ => r | _ => s.rep
     ({ s with rep := rep' }, [ "rep_step " ++ stepName res, s!"rep_seq {rep'.seq}" ] ++ obsAny "rep_" rep'.state)
 
+/-- no in-flight request marker anywhere: the snapshot is inside `synced_snapshot`'s hypothesis -/
+def noMarkers (e : Eng) : Bool :=
+  e.instruments.all fun s => s.orders.all fun (_, o) => strip (some o.state) == some o.state
+
+/-- `resnap`: the snapshot consumes the engine's next sequence number; the replica is the engine's state -/
+def resnap (s : St) : St × List String :=
+  let n := s.eng.seq
+  let rep : Replica := ⟨s.eng.eng, n⟩
+  ({ s with eng := ⟨s.eng.eng, n + 1⟩, rep := rep, hypOk := noMarkers s.eng.eng },
+   [ s!"seq {n}", s!"rep_seq {n}", s!"rep_start {n}" ] ++ obsAny "rep_" rep.state ++ [ "rep_rest_eq 1" ])
+
+structure TwoRuns where
+  ticks1 : List Tick
+  mid : EngA
+  snap2 : Nat
+  ticks2 : List Tick
+  fin : EngA
+  h2 : List (Event × Ask)
+  /-- events the first run consumed -/
+  c1 : Nat
+
+/-- the two runs of `runtwo`: the second starts on the engine the first one left, one number after its
+second snapshot -/
+def twoRuns (s : St) (k : Nat) : TwoRuns :=
+  let (ea1, t1) := runWithAudit ⟨s.init, 1⟩ (s.history.take k)
+  -- the second run goes on with the rest of the same feed: the first one consumed one event per
+  -- `process` record
+  let c1 := (t1.filter fun t => match t with | .process .. => true | .feedEnded _ => false).length
+  let h2 := s.history.drop c1
+  let (ea2, t2) := runWithAudit ⟨ea1.eng, ea1.seq + 1⟩ h2
+  ⟨t1, ea1, ea1.seq, t2, ea2, h2, c1⟩
+
+def runTwo (s : St) (k : Nat) (fault : Option String := none) : List String :=
+  let r := twoRuns s k
+  let rep1 := Replica.run ⟨s.init, 0⟩ r.ticks1
+  let (fed, lossless) := match fault with
+    | none => (r.ticks2, true)
+    | some m => (mutateStream m r.ticks2).getD (r.ticks2, true)
+  let start : Replica := ⟨r.mid.eng, r.snap2⟩
+  let repRes := Replica.run start fed
+  let rep := match repRes with | .ok q => q | .error _ => replicaRunState start fed
+  [ "run1_seqs " ++ joinOr (r.ticks1.map fun t => toString t.seq),
+    "run1_last " ++ lastKind r.ticks1,
+    (match rep1 with | .ok _ => "run1_rep ok" | .error _ => "run1_rep err"),
+    "run1_rep_rest_eq 1",
+    s!"snap2_seq {r.snap2}",
+    "run_seqs " ++ joinOr (r.ticks2.map fun t => toString t.seq),
+    "run_terminal " ++ joinOr (r.ticks2.map fun t => fmtBool t.terminal),
+    "run_last " ++ lastKind r.ticks2 ] ++
+  (tickDigests ⟨r.mid.eng, r.snap2 + 1⟩ r.h2 r.ticks2).map ("run_ev " ++ ·) ++
+  [ (match repRes with | .ok _ => "run_rep ok" | .error _ => "run_rep err"),
+    s!"run_rep_seq {rep.seq}" ] ++
+  obsAny "run_" r.fin.eng ++ obsAny "run_rep_" rep.state ++
+  (if lossless then [ "run_rep_rest_eq 1" ] else []) ++
+  [ "run_rep_sync " ++ fmtBool (strippedOrders "" r.fin.eng == strippedOrders "" rep.state) ]
+
+/-- the records of the second run carry the input events k, k+1, .. of the history, as many as there are
+records, then the feed-ended record if that run ended by exhaustion -/
+def runTwoEvSpec (s : St) (k : Nat) : List String :=
+  let r := twoRuns s k
+  let n := (r.ticks2.filter fun t => match t with | .process .. => true | .feedEnded _ => false).length
+  ((s.digests.drop r.c1).take n).map ("run_ev " ++ ·) ++
+  (match r.ticks2.getLast? with | some (.feedEnded _) => ["run_ev feed-ended"] | _ => [])
+
+/-- the order clause is demanded of the second run when the replication hypotheses held for the whole
+history (the two runs together process the events of the history in order, none skipped) and the second
+snapshot holds no in-flight marker -/
+def runTwoSyncDemanded (s : St) (k : Nat) : Bool :=
+  let r := twoRuns s k
+  s.hypOk && noMarkers r.mid.eng
+
 def model : Drv St where
   init := St.empty
   step s toks :=
@@ -242,6 +319,15 @@ def model : Drv St where
       match mutateStream m [] with
       | none => (s, ["bad-op"])
       | some _ => (s, runAll s (some m))
+    | ["resnap"] => resnap s
+    | ["runtwo", _, k] =>
+      match k.toNat? with
+      | none => (s, ["bad-op"])
+      | some k => (s, runTwo s (min k s.history.length))
+    | ["runtwo", _, k, m] =>
+      match k.toNat?, mutateStream m [] with
+      | some k, some _ => (s, runTwo s (min k s.history.length) (some m))
+      | _, _ => (s, ["bad-op"])
     | _ => (s, ["bad-op"])
 
 /-- Spec view: sequence numbers, terminal flags, the event each record carries (`rec_ev` / `run_ev`: the
@@ -256,7 +342,8 @@ def spec : Drv St where
     let (s', lines) := model.step s toks
     let keep := fun (l : String) =>
       ["seq", "terminal", "rep_step", "rep_seq", "rep_rest_eq", "run_seqs", "run_terminal", "run_last",
-       "run_rep ", "run_rep_rest_eq", "panic", "bad-op", "noop"].any (fun k => l.startsWith k)
+       "run_rep ", "run_rep_rest_eq", "panic", "bad-op", "noop",
+       "rep_start", "run1_seqs", "run1_last", "run1_rep", "snap2_seq", "run_rep_seq"].any (fun k => l.startsWith k)
     let base := lines.filter keep
     let isEv := toks.head? == some "ev" && base.any (fun l => l.startsWith "seq")
     -- "carrying that event": the record of this op carries the event the op hands to the engine
@@ -270,6 +357,17 @@ def spec : Drv St where
         -- replica = engine on trading / position / price; orders stripped
         ((obsAny "rep_" s'.eng.eng).filter fun l => !(l.startsWith "rep_ord")) ++
         (if s'.hypOk then strippedOrders "rep_" s'.eng.eng ++ ["rep_sync 1"] else [])
+      else if toks == ["resnap"] then
+        -- the replica starts as the engine is: trading / position / price, and (no marker in the
+        -- snapshot) the engine's orders
+        ((obsAny "rep_" s.eng.eng).filter fun l => !(l.startsWith "rep_ord")) ++
+        (if s'.hypOk then strippedOrders "rep_" s.eng.eng else [])
+      else if toks.head? == some "runtwo" && base.any (fun l => l.startsWith "run_seqs") then
+        let k := min (((toks[2]?).bind String.toNat?).getD 0) s.history.length
+        let lossless := match toks with
+          | [_, _, _, m] => ((mutateStream m []).map (·.2)).getD false
+          | _ => true
+        runTwoEvSpec s k ++ (if runTwoSyncDemanded s k && lossless then ["run_rep_sync 1"] else [])
       else if toks.head? == some "runall" && base.any (fun l => l.startsWith "run_seqs") then
         -- a transport that only repeats records loses nothing: the replica must still end equal
         let lossless := match toks with
